@@ -63,6 +63,8 @@ type caseD struct {
 	WS     []wrD   `json:"writes_through_result,omitempty"`
 	Q2     queryD  `json:"later_selection"`
 	Ver    bool    `json:"verifier_level"`
+	Rep    bool    `json:"empty_values_are_non_nil,omitempty"` // empty slices / maps of the document are []string{} / map{} instead of nil
+	Hist   string  `json:"history,omitempty"`                  // step k of n on ONE long-lived document and ONE long-lived verifier
 	// observation
 	Accepted bool   `json:"validate_accepted"`
 	R1       string `json:"obs_first"`
@@ -74,9 +76,9 @@ type caseD struct {
 
 // ---------- building the real documents ----------
 
-func buildSV(s stmtD) trustpolicy.SignatureVerification {
+func buildSV(s stmtD, rep bool) trustpolicy.SignatureVerification {
 	sv := trustpolicy.SignatureVerification{VerificationLevel: s.Level, VerifyTimestamp: trustpolicy.TimestampOption(s.VTS)}
-	if len(s.Override) > 0 {
+	if len(s.Override) > 0 || rep {
 		sv.Override = map[trustpolicy.ValidationType]trustpolicy.ValidationAction{}
 		for k, v := range s.Override {
 			sv.Override[trustpolicy.ValidationType(k)] = trustpolicy.ValidationAction(v)
@@ -85,29 +87,35 @@ func buildSV(s stmtD) trustpolicy.SignatureVerification {
 	return sv
 }
 
-func cp(xs []string) []string {
+func cp(xs []string) []string { return cpr(xs, false) }
+
+// cpr copies xs; an empty xs becomes nil, or an empty non-nil slice when rep is set.
+func cpr(xs []string, rep bool) []string {
 	if len(xs) == 0 {
+		if rep {
+			return []string{}
+		}
 		return nil
 	}
 	return append([]string(nil), xs...)
 }
 
-func buildOCI(d []stmtD) *trustpolicy.OCIDocument {
+func buildOCI(d []stmtD, rep bool) *trustpolicy.OCIDocument {
 	doc := &trustpolicy.OCIDocument{Version: "1.0"}
 	for _, s := range d {
 		doc.TrustPolicies = append(doc.TrustPolicies, trustpolicy.OCITrustPolicy{
-			Name: s.Name, RegistryScopes: cp(s.Scopes), SignatureVerification: buildSV(s),
-			TrustStores: cp(s.Stores), TrustedIdentities: cp(s.Ids)})
+			Name: s.Name, RegistryScopes: cpr(s.Scopes, rep), SignatureVerification: buildSV(s, rep),
+			TrustStores: cpr(s.Stores, rep), TrustedIdentities: cpr(s.Ids, rep)})
 	}
 	return doc
 }
 
-func buildBlob(d []stmtD) *trustpolicy.BlobDocument {
+func buildBlob(d []stmtD, rep bool) *trustpolicy.BlobDocument {
 	doc := &trustpolicy.BlobDocument{Version: "1.0"}
 	for _, s := range d {
 		doc.TrustPolicies = append(doc.TrustPolicies, trustpolicy.BlobTrustPolicy{
-			Name: s.Name, SignatureVerification: buildSV(s),
-			TrustStores: cp(s.Stores), TrustedIdentities: cp(s.Ids), GlobalPolicy: s.Global})
+			Name: s.Name, SignatureVerification: buildSV(s, rep),
+			TrustStores: cpr(s.Stores, rep), TrustedIdentities: cpr(s.Ids, rep), GlobalPolicy: s.Global})
 	}
 	return doc
 }
@@ -300,31 +308,60 @@ func newVerEnv() *verEnv {
 	return &verEnv{env: env, desc: desc, rev: rev}
 }
 
-// observeVerifier returns (skipverify code, vres term, vres description).
-func (e *verEnv) observe(blob bool, d []stmtD, q queryD) (int, string, string) {
+// verInst is ONE verifier (with its own instance of the document) and its instrumented trust store.
+type verInst struct {
+	v     notation.Verifier
+	bv    notation.BlobVerifier
+	sk    interface {
+		SkipVerify(ctx context.Context, opts notation.VerifierVerifyOptions) (bool, *trustpolicy.VerificationLevel, error)
+	}
+	store *MockStore
+	blob  bool
+}
+
+func (e *verEnv) newVerifier(blob bool, d []stmtD, rep bool) *verInst {
 	store := NewMockStore() // empty: every consulted store fails, the consultation is recorded
 	opts := verifier.VerifierOptions{RevocationCodeSigningValidator: e.rev.Validator()}
 	if blob {
-		opts.BlobTrustPolicy = buildBlob(d)
+		opts.BlobTrustPolicy = buildBlob(d, rep)
 	} else {
-		opts.OCITrustPolicy = buildOCI(d)
+		opts.OCITrustPolicy = buildOCI(d, rep)
 	}
 	v, err := verifier.NewVerifierWithOptions(store, opts)
 	if err != nil {
 		panic(fmt.Sprintf("c08: verifier construction on an accepted document: %v", err))
 	}
+	vi := &verInst{store: store, blob: blob}
+	vi.v, _ = v.(notation.Verifier)
+	vi.bv, _ = v.(notation.BlobVerifier)
+	vi.sk, _ = v.(interface {
+		SkipVerify(ctx context.Context, opts notation.VerifierVerifyOptions) (bool, *trustpolicy.VerificationLevel, error)
+	})
+	return vi
+}
+
+// observe builds a fresh verifier and observes one query on it.
+func (e *verEnv) observe(blob bool, d []stmtD, rep bool, q queryD) (int, string, string) {
+	return e.observeOn(e.newVerifier(blob, d, rep), q)
+}
+
+// observeOn returns (skipverify code, vres term, vres description) of one query on a (possibly long-lived) verifier.
+func (e *verEnv) observeOn(vi *verInst, q queryD) (int, string, string) {
+	store := vi.store
+	base := len(store.Calls)
 	ctx := context.Background()
 	sv := 9
 	var outcome *notation.VerificationOutcome
-	if blob {
+	var err error
+	if vi.blob {
 		name := q.Arg
 		if q.Kind == "global" {
 			name = ""
 		}
-		outcome, err = v.VerifyBlob(ctx, func(digest.Algorithm) (ocispec.Descriptor, error) { return e.desc, nil }, e.env,
+		outcome, err = vi.bv.VerifyBlob(ctx, func(digest.Algorithm) (ocispec.Descriptor, error) { return e.desc, nil }, e.env,
 			notation.BlobVerifierVerifyOptions{SignatureMediaType: MtJWS, TrustPolicyName: name})
 	} else {
-		skip, _, serr := v.SkipVerify(ctx, notation.VerifierVerifyOptions{ArtifactReference: q.Arg})
+		skip, _, serr := vi.sk.SkipVerify(ctx, notation.VerifierVerifyOptions{ArtifactReference: q.Arg})
 		switch {
 		case serr != nil && ErrClass(serr) == "nopolicy":
 			sv = 0
@@ -335,17 +372,18 @@ func (e *verEnv) observe(blob bool, d []stmtD, q queryD) (int, string, string) {
 		default:
 			sv = 2
 		}
-		outcome, err = v.Verify(ctx, e.desc, e.env, notation.VerifierVerifyOptions{ArtifactReference: q.Arg, SignatureMediaType: MtJWS})
+		outcome, err = vi.v.Verify(ctx, e.desc, e.env, notation.VerifierVerifyOptions{ArtifactReference: q.Arg, SignatureMediaType: MtJWS})
 	}
+	calls := store.Calls[base:]
 	switch {
 	case outcome == nil && err != nil && ErrClass(err) == "nopolicy":
 		return sv, "VNoPolicy", "nopolicy"
 	case outcome == nil:
 		return sv, "VOther", "other:" + Short(fmt.Sprint(err), 80)
-	case outcome.VerificationLevel != nil && outcome.VerificationLevel.Name == "skip" && err == nil && len(store.Calls) == 0:
+	case outcome.VerificationLevel != nil && outcome.VerificationLevel.Name == "skip" && err == nil && len(calls) == 0:
 		return sv, "VSkip", "skip"
 	}
-	for _, c := range store.Calls {
+	for _, c := range calls {
 		if string(c.Type) == "ca" {
 			return sv, CApp("VUsed", CSome(CStr(c.Name))), "used:ca:" + c.Name
 		}
